@@ -148,6 +148,8 @@ def ob_tg_erase(shrink, timeout):
         tg = Textgrid(0.0, hi)
         tg.addTier(IntervalTier("i", [Interval(s0, e0, "x")], 0.0, hi))
         tg.addTier(PointTier("p", [Point(t0, "q")], 0.0, hi))
+        tg.addTier(IntervalTier("empty", [], 0.0, hi))
+        tg.addTier(PointTier("emptyp", [], 0.0, hi))
         before = snap_tg(tg)
         try:
             r = tg.eraseRegion(a, b, shrink)
@@ -157,14 +159,14 @@ def ob_tg_erase(shrink, timeout):
             return "a>=b accepted"
         if snap_tg(tg) != before:
             return "receiver mutated"
-        if r.tierNames != ("i", "p"):
+        if r.tierNames != ("i", "p", "empty", "emptyp"):
             return "names/order"
         ei, lo, hi2 = R.erase_intervals([(s0, e0, "x")], 0.0, hi, a, b, "truncate", shrink)
         ep, _, _ = R.erase_points([(t0, "q")], 0.0, hi, a, b, shrink)
         ri, rp = r.getTier("i"), r.getTier("p")
         if tuples(ri.entries) != ei or tuples(rp.entries) != ep:
             return "tier entries differ from per-tier eraseRegion"
-        for t in (ri, rp, r):
+        for t in (ri, rp, r, r.getTier("empty"), r.getTier("emptyp")):
             if (t.minTimestamp, t.maxTimestamp) != (lo, hi2):
                 return "span"
         if not r.validate("silence"):
@@ -179,8 +181,28 @@ def ob_tg_erase(shrink, timeout):
         fmode="real",
         timeout=timeout,
         funcs=FUNCS,
-        bounds="2 tiers (1 interval, 1 point), region in span incl. a>=b",
+        bounds="4 tiers (1 interval, 1 point, 2 empty), region in span incl. a>=b",
     )
+
+
+def ob_overlap_ieee(k, timeout):
+    """binary64: 'error' mode raises CollisionError exactly when an interval overlaps the region
+    by a positive length (no tolerance in the overlap test)"""
+    names = ["a", "b", "hi"] + _ts(k)
+
+    def pre(a, b, hi, *ts):
+        return ivs_wf_pre(0.0, hi, *ts) & within(0.0, hi, a, b) & (a < b) & finite(hi)
+
+    def body(a, b, hi, *ts):
+        tier = IntervalTier("t", mk_ivs(ts), 0.0, hi)
+        hit = any(not (ts[2 * i + 1] <= a or ts[2 * i] >= b) for i in range(k))
+        try:
+            tier.eraseRegion(a, b, "error", False)
+        except errors.CollisionError:
+            return True if hit else "CollisionError although nothing overlaps the region"
+        return "overlap not reported" if hit else True
+
+    return Ob("ierase-overlap-ieee-k%d" % k, F(*names), body, pre, fmode="ieee", timeout=timeout, funcs=FUNCS[:2], bounds="k=%d intervals, all binary64 timestamps (overlap by one ulp included)" % k)
 
 
 def obligations(tier):
@@ -193,7 +215,10 @@ def obligations(tier):
         for shrink in (True, False):
             obs.append(ob_point_erase(2, shrink, 120))
             obs.append(ob_tg_erase(shrink, 240))
+        obs.append(ob_overlap_ieee(1, 300))
     else:
+        for k in (1, 2, 3):
+            obs.append(ob_overlap_ieee(k, 900))
         for mode in MODES:
             for shrink in (True, False):
                 for k in (0, 1, 2, 3):
@@ -207,4 +232,5 @@ def obligations(tier):
     from harness import fp_kernels
 
     obs += fp_kernels.c07_obligations(tier)
+    obs += fp_kernels.c12_obligations(tier)
     return obs
